@@ -30,10 +30,24 @@ FileViol(x, d) ==
                \/ d.frames[i].tempc # x.frames[i].tempc \/ d.frames[i].lastffctempc # x.frames[i].lastffctempc)
         THEN {"C11:telemetry"} ELSE {})
 
+(* a file produced through the throttle: header, threshold and background of the trigger that produced it, and *)
+(* its frames are frames of that trigger, in order                                                            *)
+RECURSIVE IsSubseq(_, _)
+IsSubseq(a, b) == IF a = <<>> THEN TRUE ELSE IF b = <<>> THEN FALSE
+                  ELSE IF Head(a).pix = Head(b).pix THEN IsSubseq(Tail(a), Tail(b)) ELSE IsSubseq(a, Tail(b))
+ThrottledFileViol(x, d) ==
+  {"C11:header-" \o f : f \in {g \in HeaderFields : x[g] # d[g]}}
+  \cup {"C11:motion-config-" \o k : k \in {j \in DOMAIN x.motion : j \notin DOMAIN d.motion \/ d.motion[j] # x.motion[j]}}
+  \cup (IF ~d.hasbg \/ Len(d.frames) < 1 \/ ~d.frames[1].bg THEN {"C11:no-background-frame"}
+        ELSE IF d.frames[1].pix # x.frames[1].pix THEN {"C11:background-not-the-one-at-trigger"} ELSE {})
+  \cup (IF d.nframes # Len(d.frames) THEN {"C11:frame-count"} ELSE {})
+  \cup (IF Len(d.frames) >= 1 /\ ~IsSubseq(Tail(d.frames), Tail(x.frames)) THEN {"C11:pixels"} ELSE {})
+
 TInit == l = 1
 TNext == /\ l <= Len(Trace) /\ l' = l + 1
          /\ \E E \in {Trace[l]} :
               \E v \in { CASE E.ev = "file" -> FileViol(E.expected, E.decoded)
+                           [] E.ev = "tfile" -> ThrottledFileViol(E.expected, E.decoded)
                            [] E.ev = "fileset" -> (IF E.found # E.expected THEN {"C11:file-missing-or-extra"} ELSE {})
                                                   \cup (IF E.stray # <<>> THEN {"C11:stray-files"} ELSE {})
                            [] E.ev = "undecodable" -> {"C11:undecodable"}
